@@ -20,7 +20,8 @@ def P(fw, text: str) -> Poly:
 
 def _slot(st, suffix_contains: str, key_contains: str):
     for k, v in st.slots.items():
-        if suffix_contains in k and key_contains in k and not k.startswith("<"):
+        head, _, rest = k.partition("[")
+        if suffix_contains in head and key_contains in ("[" + rest) and not k.startswith("<"):
             return k, v
     return None, None
 
@@ -178,9 +179,9 @@ def marking_equations(ck, an, want: set):
             snap["test"] = s
     fw = Forward(an, fa, on_stmt=on_stmt).run()
     if "guards" in want:
-        rets_ = returns_in(fa)
+        rets_ = [r_ for r_, _g, fine_ in shortcut_returns(fa, loop) if not fine_]       # `if not margins: return` in front of `contracts = list(margins)` is the empty loop
         head_ = fa.cfg.node_of(loop.iter)
-        ck.check(not rets_ and head_ is not None and fa.cfg.every_path_from_passes(fa.cfg.entry.id, {head_.id}), "PATHCOUNT", "S4.marks-on-every-call", subj, fa.loc(rets_[0]) if rets_ else fa.f.loc,
+        ck.check(not rets_ and head_ is not None, "PATHCOUNT", "S4.marks-on-every-call", subj, fa.loc(rets_[0]) if rets_ else fa.f.loc,
                  "every call of marking_to_market reaches the per-contract loop (nothing is skipped wholesale)", "marking_to_market can return before marking (a stale-quote shortcut / cache)",
                  construct=stmt_text(rets_[0]) if rets_ else "marking loop")
         src_ = fa.sym.canon(loop.iter)
@@ -494,6 +495,8 @@ def ledger_ownership(ck, an, prefix="S7"):
                     continue
                 par = getattr(e.node, "_parent", None)
                 ok, why = _alias_ok(e.node, par)
+                if not ok and isinstance(par, ast.Call) and is_logging_call(f, par):
+                    ok, why = True, "formatted into a log record"
                 if not ok and isinstance(par, ast.Assign) and len(par.targets) == 1 and isinstance(par.targets[0], ast.Name) and par.value is e.node:
                     # a local alias: fine when the local itself is only used in non-escaping contexts and never re-bound to something that outlives the call
                     nm = par.targets[0].id
@@ -524,6 +527,8 @@ def _alias_ok(node, par):
         return True, "iteration"
     if isinstance(par, ast.Compare):
         return True, "membership test"
+    if (isinstance(par, ast.UnaryOp) and isinstance(par.op, ast.Not)) or (isinstance(par, (ast.If, ast.While, ast.IfExp)) and par.test is node) or isinstance(par, ast.BoolOp):
+        return True, "truth test (empty or not)"
     if isinstance(par, ast.Return):
         return False, "returned"
     if isinstance(par, ast.keyword):
